@@ -140,7 +140,7 @@ func checkValueLookup(r *Run, prog *Program, a *Anchors, pfx string) {
 		if len(lf.gets) == 0 {
 			// resolved (or rejected) by a local variable before any lookup in the datum
 			seenClasses["local"]++
-			ok := (pv && ec == "nil" && isFieldOfValue(val, "value")) || (!pv && ec == "nonnil")
+			ok := (pv && ec == "nil" && isFieldOfValue(val, bindingField(prog, "value"))) || (!pv && ec == "nonnil")
 			if ok && pv {
 				// … of a key/index binding: the binding's alias path is known to be empty on this path (an element alias
 				// that also carries a value must still be resolved in the datum, where the tag name and the hook apply)
@@ -598,4 +598,25 @@ func bindingRecordType(prog *Program) *types.Struct {
 		}
 	}
 	return nil
+}
+
+// bindingField: the name of the binding record's field in the given role — "name" (the one string), "path" (the one list
+// of strings), "value" (the one empty interface) — whatever the fields are called.
+func bindingField(prog *Program, role string) string {
+	st := bindingRecordType(prog)
+	if st == nil {
+		return role
+	}
+	for i := 0; i < st.NumFields(); i++ {
+		f := st.Field(i)
+		switch {
+		case role == "name" && types.Identical(f.Type(), types.Typ[types.String]):
+			return f.Name()
+		case role == "path" && isStringSlice(f.Type()):
+			return f.Name()
+		case role == "value" && isEmptyIface(f.Type()):
+			return f.Name()
+		}
+	}
+	return role
 }
